@@ -346,11 +346,9 @@ package chain
 //@ extern (*types.V2Transaction).EncodeTo
 //@   assigns nothing
 //@ extern (*consensus.ElementAccumulator).ValidateTransactionElements pure
-//@ extern (consensus.ApplyUpdate).SiacoinElementDiffs
-//@   assigns nothing
+//@ extern (consensus.ApplyUpdate).SiacoinElementDiffs pure
 //@   ensures forall d int :: { result[d] } 0 <= d && d < len(result) ==> result[d].Created || result[d].Spent
-//@ extern (consensus.ApplyUpdate).SiafundElementDiffs
-//@   assigns nothing
+//@ extern (consensus.ApplyUpdate).SiafundElementDiffs pure
 //@ extern (types.StateElement).Share pure
 //
 //@ func (*Manager).updateV2TransactionProofs props C13
@@ -620,12 +618,7 @@ package chain
 //@ func (*DBStore).revertState
 //@   assigns heap:DBStore
 //@   ensures db.db == old(db.db) && db.n == old(db.n)
-//@ func (*DBStore).applyElements
-//@   assigns heap:DBStore
-//@   ensures db.db == old(db.db) && db.n == old(db.n)
-//@ func (*DBStore).revertElements
-//@   assigns heap:DBStore
-//@   ensures db.db == old(db.db) && db.n == old(db.n)
+// (applyElements / revertElements: see C02 below)
 //@ func (*DBStore).shouldFlush
 //@   assigns nothing
 //
@@ -715,3 +708,181 @@ package chain
 //@ func (*Manager).RecommendedFee props C05
 //@   requires m != nil
 //@   ensures [revalidated] called("revalidatePool")
+//
+// ---------------------------------------------------------------------------
+// C02: applying a block's element diffs and reverting them are inverse on the element buckets.
+// The buckets are abstract maps (ghost state); the six primitives below are encoding wrappers
+// around one bucket operation each and are assumed to be point updates of their map.
+//@ ghost gSC map[types.SiacoinOutputID]types.SiacoinElement
+//@ ghost gSF map[types.SiafundOutputID]types.SiafundElement
+//@ ghost gFC map[types.FileContractID]types.FileContractElement
+// equality of stored elements up to the Merkle proof (which is stripped on the way in)
+//@ pred sameSC(a types.SiacoinElement, b types.SiacoinElement) = a.ID == b.ID && a.SiacoinOutput == b.SiacoinOutput && a.MaturityHeight == b.MaturityHeight && a.StateElement.LeafIndex == b.StateElement.LeafIndex
+//@ pred sameSF(a types.SiafundElement, b types.SiafundElement) = a.ID == b.ID && a.SiafundOutput == b.SiafundOutput && a.ClaimStart == b.ClaimStart && a.StateElement.LeafIndex == b.StateElement.LeafIndex
+//@ func (*DBStore).putSiacoinElement
+//@   assigns heap:DBStore, ghost:gSC
+//@   ensures db.db == old(db.db) && db.n == old(db.n)
+//@   ensures gSC == old(gSC)[sce.ID := sce]
+//@ func (*DBStore).deleteSiacoinElement
+//@   assigns heap:DBStore, ghost:gSC
+//@   ensures db.db == old(db.db) && db.n == old(db.n)
+//@   ensures gSC == remove(old(gSC), id)
+//@ func (*DBStore).putSiafundElement
+//@   assigns heap:DBStore, ghost:gSF
+//@   ensures db.db == old(db.db) && db.n == old(db.n)
+//@   ensures gSF == old(gSF)[sfe.ID := sfe]
+//@ func (*DBStore).deleteSiafundElement
+//@   assigns heap:DBStore, ghost:gSF
+//@   ensures db.db == old(db.db) && db.n == old(db.n)
+//@   ensures gSF == remove(old(gSF), id)
+//@ func (*DBStore).putFileContractElement
+//@   assigns heap:DBStore, ghost:gFC
+//@   ensures db.db == old(db.db) && db.n == old(db.n)
+//@   ensures gFC == old(gFC)[fce.ID := fce]
+//@ func (*DBStore).deleteFileContractElement
+//@   assigns heap:DBStore, ghost:gFC
+//@   ensures db.db == old(db.db) && db.n == old(db.n)
+//@   ensures gFC == remove(old(gFC), id)
+//@ func (*DBStore).putFileContractExpiration
+//@   assigns heap:DBStore
+//@   ensures db.db == old(db.db) && db.n == old(db.n)
+//@ func (*DBStore).deleteFileContractExpiration
+//@   assigns heap:DBStore
+//@   ensures db.db == old(db.db) && db.n == old(db.n)
+//@ extern (consensus.ApplyUpdate).ForEachTreeNode
+//@   assigns nothing
+//@ extern (consensus.RevertUpdate).ForEachTreeNode
+//@   assigns nothing
+//@ extern (consensus.ApplyUpdate).FileContractElementDiffs pure
+//@ extern (consensus.RevertUpdate).FileContractElementDiffs pure
+//@ extern (consensus.RevertUpdate).SiafundElementDiffs pure
+//@ extern (types.SiafundElement).Share pure
+//@   ensures result.ID == sfe.ID && result.SiafundOutput == sfe.SiafundOutput && result.ClaimStart == sfe.ClaimStart && result.StateElement.LeafIndex == sfe.StateElement.LeafIndex
+//@ extern (types.FileContractElement).Share pure
+//@   ensures result.ID == fce.ID && result.FileContract == fce.FileContract && result.StateElement.LeafIndex == fce.StateElement.LeafIndex
+//
+// What one diff does to its bucket when applied / reverted (g: bucket after, g0: bucket before):
+//@ pred sameFC(a types.FileContractElement, b types.FileContractElement) = a.ID == b.ID && a.FileContract == b.FileContract && a.StateElement.LeafIndex == b.StateElement.LeafIndex
+//@ pred scApplied(g map[types.SiacoinOutputID]types.SiacoinElement, g0 map[types.SiacoinOutputID]types.SiacoinElement, df consensus.SiacoinElementDiff) =
+//@     ite(df.Created && df.Spent, ((df.SiacoinElement.ID in g) <==> (df.SiacoinElement.ID in g0)) && g[df.SiacoinElement.ID] == g0[df.SiacoinElement.ID],
+//@     ite(df.Spent, !(df.SiacoinElement.ID in g), (df.SiacoinElement.ID in g) && sameSC(g[df.SiacoinElement.ID], df.SiacoinElement)))
+//@ pred scReverted(g map[types.SiacoinOutputID]types.SiacoinElement, g0 map[types.SiacoinOutputID]types.SiacoinElement, df consensus.SiacoinElementDiff) =
+//@     ite(df.Created && df.Spent, ((df.SiacoinElement.ID in g) <==> (df.SiacoinElement.ID in g0)) && g[df.SiacoinElement.ID] == g0[df.SiacoinElement.ID],
+//@     ite(df.Spent, (df.SiacoinElement.ID in g) && sameSC(g[df.SiacoinElement.ID], df.SiacoinElement), !(df.SiacoinElement.ID in g)))
+//@ pred sfApplied(g map[types.SiafundOutputID]types.SiafundElement, g0 map[types.SiafundOutputID]types.SiafundElement, df consensus.SiafundElementDiff) =
+//@     ite(df.Created && df.Spent, ((df.SiafundElement.ID in g) <==> (df.SiafundElement.ID in g0)) && g[df.SiafundElement.ID] == g0[df.SiafundElement.ID],
+//@     ite(df.Spent, !(df.SiafundElement.ID in g), (df.SiafundElement.ID in g) && sameSF(g[df.SiafundElement.ID], df.SiafundElement)))
+//@ pred sfReverted(g map[types.SiafundOutputID]types.SiafundElement, g0 map[types.SiafundOutputID]types.SiafundElement, df consensus.SiafundElementDiff) =
+//@     ite(df.Created && df.Spent, ((df.SiafundElement.ID in g) <==> (df.SiafundElement.ID in g0)) && g[df.SiafundElement.ID] == g0[df.SiafundElement.ID],
+//@     ite(df.Spent, (df.SiafundElement.ID in g) && sameSF(g[df.SiafundElement.ID], df.SiafundElement), !(df.SiafundElement.ID in g)))
+//@ pred fcApplied(g map[types.FileContractID]types.FileContractElement, g0 map[types.FileContractID]types.FileContractElement, df consensus.FileContractElementDiff) =
+//@     ite(df.Created && df.Resolved, ((df.FileContractElement.ID in g) <==> (df.FileContractElement.ID in g0)) && g[df.FileContractElement.ID] == g0[df.FileContractElement.ID],
+//@     ite(df.Resolved, !(df.FileContractElement.ID in g),
+//@     ite(df.Revision != nil, (df.FileContractElement.ID in g) && g[df.FileContractElement.ID].ID == df.FileContractElement.ID && g[df.FileContractElement.ID].FileContract == *df.Revision && g[df.FileContractElement.ID].StateElement.LeafIndex == df.FileContractElement.StateElement.LeafIndex,
+//@         (df.FileContractElement.ID in g) && sameFC(g[df.FileContractElement.ID], df.FileContractElement))))
+//@ pred fcReverted(g map[types.FileContractID]types.FileContractElement, g0 map[types.FileContractID]types.FileContractElement, df consensus.FileContractElementDiff) =
+//@     ite(df.Created && df.Resolved, ((df.FileContractElement.ID in g) <==> (df.FileContractElement.ID in g0)) && g[df.FileContractElement.ID] == g0[df.FileContractElement.ID],
+//@     ite(df.Resolved || df.Revision != nil, (df.FileContractElement.ID in g) && sameFC(g[df.FileContractElement.ID], df.FileContractElement), !(df.FileContractElement.ID in g)))
+//
+// applyElements: per element class, a spent (resolved) element leaves its bucket, an element that
+// is not spent is stored as the diff carries it (a revised contract with its revision), an element
+// created and spent in the same block is not touched, and nothing else in the bucket changes.
+// (Precondition: a block has one diff per element.)
+//@ func (*DBStore).applyElements props C02
+//@   assigns heap:DBStore, ghost:gSC, ghost:gSF, ghost:gFC
+//@   requires db != nil
+//@   requires [one-sc-diff-per-id] forall a int, b int :: { cau.SiacoinElementDiffs()[a], cau.SiacoinElementDiffs()[b] } 0 <= a && a < b && b < len(cau.SiacoinElementDiffs()) ==> cau.SiacoinElementDiffs()[a].SiacoinElement.ID != cau.SiacoinElementDiffs()[b].SiacoinElement.ID
+//@   requires [one-sf-diff-per-id] forall a int, b int :: { cau.SiafundElementDiffs()[a], cau.SiafundElementDiffs()[b] } 0 <= a && a < b && b < len(cau.SiafundElementDiffs()) ==> cau.SiafundElementDiffs()[a].SiafundElement.ID != cau.SiafundElementDiffs()[b].SiafundElement.ID
+//@   requires [one-fc-diff-per-id] forall a int, b int :: { cau.FileContractElementDiffs()[a], cau.FileContractElementDiffs()[b] } 0 <= a && a < b && b < len(cau.FileContractElementDiffs()) ==> cau.FileContractElementDiffs()[a].FileContractElement.ID != cau.FileContractElementDiffs()[b].FileContractElement.ID
+//@   loop "range cau.SiacoinElementDiffs()"
+//@     invariant db == old(db) && db.db == old(db.db) && db.n == old(db.n) && gSF == loopentry(gSF) && gFC == loopentry(gFC)
+//@     invariant [done] forall d int :: { cau.SiacoinElementDiffs()[d] } 0 <= d && d <= rangeindex ==> scApplied(gSC, old(gSC), cau.SiacoinElementDiffs()[d])
+//@     invariant [rest] forall id types.SiacoinOutputID :: { id in gSC } (forall d int :: { cau.SiacoinElementDiffs()[d] } 0 <= d && d <= rangeindex ==> cau.SiacoinElementDiffs()[d].SiacoinElement.ID != id) ==> ((id in gSC) <==> (id in old(gSC))) && gSC[id] == old(gSC)[id]
+//@   loop "range cau.SiafundElementDiffs()"
+//@     invariant db == old(db) && db.db == old(db.db) && db.n == old(db.n) && gSC == loopentry(gSC) && gFC == loopentry(gFC)
+//@     invariant [done] forall d int :: { cau.SiafundElementDiffs()[d] } 0 <= d && d <= rangeindex ==> sfApplied(gSF, old(gSF), cau.SiafundElementDiffs()[d])
+//@     invariant [rest] forall id types.SiafundOutputID :: { id in gSF } (forall d int :: { cau.SiafundElementDiffs()[d] } 0 <= d && d <= rangeindex ==> cau.SiafundElementDiffs()[d].SiafundElement.ID != id) ==> ((id in gSF) <==> (id in old(gSF))) && gSF[id] == old(gSF)[id]
+//@   loop "range cau.FileContractElementDiffs()"
+//@     invariant db == old(db) && db.db == old(db.db) && db.n == old(db.n) && gSC == loopentry(gSC) && gSF == loopentry(gSF)
+//@     invariant [done] forall d int :: { cau.FileContractElementDiffs()[d] } 0 <= d && d <= rangeindex ==> fcApplied(gFC, old(gFC), cau.FileContractElementDiffs()[d])
+//@     invariant [rest] forall id types.FileContractID :: { id in gFC } (forall d int :: { cau.FileContractElementDiffs()[d] } 0 <= d && d <= rangeindex ==> cau.FileContractElementDiffs()[d].FileContractElement.ID != id) ==> ((id in gFC) <==> (id in old(gFC))) && gFC[id] == old(gFC)[id]
+//@   ensures [fields] db.db == old(db.db) && db.n == old(db.n)
+//@   ensures [sc] forall d int :: { cau.SiacoinElementDiffs()[d] } 0 <= d && d < len(cau.SiacoinElementDiffs()) ==> scApplied(gSC, old(gSC), cau.SiacoinElementDiffs()[d])
+//@   ensures [sc-frame] forall id types.SiacoinOutputID :: { id in gSC } (forall d int :: { cau.SiacoinElementDiffs()[d] } 0 <= d && d < len(cau.SiacoinElementDiffs()) ==> cau.SiacoinElementDiffs()[d].SiacoinElement.ID != id) ==> ((id in gSC) <==> (id in old(gSC))) && gSC[id] == old(gSC)[id]
+//@   ensures [sc-frame-v] forall id types.SiacoinOutputID :: { gSC[id] } (forall d int :: { cau.SiacoinElementDiffs()[d] } 0 <= d && d < len(cau.SiacoinElementDiffs()) ==> cau.SiacoinElementDiffs()[d].SiacoinElement.ID != id) ==> ((id in gSC) <==> (id in old(gSC))) && gSC[id] == old(gSC)[id]
+//@   ensures [sf] forall d int :: { cau.SiafundElementDiffs()[d] } 0 <= d && d < len(cau.SiafundElementDiffs()) ==> sfApplied(gSF, old(gSF), cau.SiafundElementDiffs()[d])
+//@   ensures [sf-frame] forall id types.SiafundOutputID :: { id in gSF } (forall d int :: { cau.SiafundElementDiffs()[d] } 0 <= d && d < len(cau.SiafundElementDiffs()) ==> cau.SiafundElementDiffs()[d].SiafundElement.ID != id) ==> ((id in gSF) <==> (id in old(gSF))) && gSF[id] == old(gSF)[id]
+//@   ensures [sf-frame-v] forall id types.SiafundOutputID :: { gSF[id] } (forall d int :: { cau.SiafundElementDiffs()[d] } 0 <= d && d < len(cau.SiafundElementDiffs()) ==> cau.SiafundElementDiffs()[d].SiafundElement.ID != id) ==> ((id in gSF) <==> (id in old(gSF))) && gSF[id] == old(gSF)[id]
+//@   ensures [fc] forall d int :: { cau.FileContractElementDiffs()[d] } 0 <= d && d < len(cau.FileContractElementDiffs()) ==> fcApplied(gFC, old(gFC), cau.FileContractElementDiffs()[d])
+//@   ensures [fc-frame] forall id types.FileContractID :: { id in gFC } (forall d int :: { cau.FileContractElementDiffs()[d] } 0 <= d && d < len(cau.FileContractElementDiffs()) ==> cau.FileContractElementDiffs()[d].FileContractElement.ID != id) ==> ((id in gFC) <==> (id in old(gFC))) && gFC[id] == old(gFC)[id]
+//@   ensures [fc-frame-v] forall id types.FileContractID :: { gFC[id] } (forall d int :: { cau.FileContractElementDiffs()[d] } 0 <= d && d < len(cau.FileContractElementDiffs()) ==> cau.FileContractElementDiffs()[d].FileContractElement.ID != id) ==> ((id in gFC) <==> (id in old(gFC))) && gFC[id] == old(gFC)[id]
+//
+// revertElements: the mirror image -- a spent element comes back as the diff carries it, a revised
+// contract gets its prior revision back, an element that was created leaves the bucket, an
+// element created and spent in the block is not touched.
+//@ func (*DBStore).revertElements props C02
+//@   assigns heap:DBStore, ghost:gSC, ghost:gSF, ghost:gFC
+//@   requires db != nil
+//@   requires [one-sc-diff-per-id] forall a int, b int :: { cru.SiacoinElementDiffs()[a], cru.SiacoinElementDiffs()[b] } 0 <= a && a < b && b < len(cru.SiacoinElementDiffs()) ==> cru.SiacoinElementDiffs()[a].SiacoinElement.ID != cru.SiacoinElementDiffs()[b].SiacoinElement.ID
+//@   requires [one-sf-diff-per-id] forall a int, b int :: { cru.SiafundElementDiffs()[a], cru.SiafundElementDiffs()[b] } 0 <= a && a < b && b < len(cru.SiafundElementDiffs()) ==> cru.SiafundElementDiffs()[a].SiafundElement.ID != cru.SiafundElementDiffs()[b].SiafundElement.ID
+//@   requires [one-fc-diff-per-id] forall a int, b int :: { cru.FileContractElementDiffs()[a], cru.FileContractElementDiffs()[b] } 0 <= a && a < b && b < len(cru.FileContractElementDiffs()) ==> cru.FileContractElementDiffs()[a].FileContractElement.ID != cru.FileContractElementDiffs()[b].FileContractElement.ID
+//@   loop "range cru.FileContractElementDiffs()"
+//@     invariant db == old(db) && db.db == old(db.db) && db.n == old(db.n) && gSC == loopentry(gSC) && gSF == loopentry(gSF)
+//@     invariant [done] forall d int :: { cru.FileContractElementDiffs()[d] } 0 <= d && d <= rangeindex ==> fcReverted(gFC, old(gFC), cru.FileContractElementDiffs()[d])
+//@     invariant [rest] forall id types.FileContractID :: { id in gFC } (forall d int :: { cru.FileContractElementDiffs()[d] } 0 <= d && d <= rangeindex ==> cru.FileContractElementDiffs()[d].FileContractElement.ID != id) ==> ((id in gFC) <==> (id in old(gFC))) && gFC[id] == old(gFC)[id]
+//@   loop "range cru.SiafundElementDiffs()"
+//@     invariant db == old(db) && db.db == old(db.db) && db.n == old(db.n) && gSC == loopentry(gSC) && gFC == loopentry(gFC)
+//@     invariant [done] forall d int :: { cru.SiafundElementDiffs()[d] } 0 <= d && d <= rangeindex ==> sfReverted(gSF, old(gSF), cru.SiafundElementDiffs()[d])
+//@     invariant [rest] forall id types.SiafundOutputID :: { id in gSF } (forall d int :: { cru.SiafundElementDiffs()[d] } 0 <= d && d <= rangeindex ==> cru.SiafundElementDiffs()[d].SiafundElement.ID != id) ==> ((id in gSF) <==> (id in old(gSF))) && gSF[id] == old(gSF)[id]
+//@   loop "range cru.SiacoinElementDiffs()"
+//@     invariant db == old(db) && db.db == old(db.db) && db.n == old(db.n) && gSF == loopentry(gSF) && gFC == loopentry(gFC)
+//@     invariant [done] forall d int :: { cru.SiacoinElementDiffs()[d] } 0 <= d && d <= rangeindex ==> scReverted(gSC, old(gSC), cru.SiacoinElementDiffs()[d])
+//@     invariant [rest] forall id types.SiacoinOutputID :: { id in gSC } (forall d int :: { cru.SiacoinElementDiffs()[d] } 0 <= d && d <= rangeindex ==> cru.SiacoinElementDiffs()[d].SiacoinElement.ID != id) ==> ((id in gSC) <==> (id in old(gSC))) && gSC[id] == old(gSC)[id]
+//@   ensures [fields] db.db == old(db.db) && db.n == old(db.n)
+//@   ensures [sc] forall d int :: { cru.SiacoinElementDiffs()[d] } 0 <= d && d < len(cru.SiacoinElementDiffs()) ==> scReverted(gSC, old(gSC), cru.SiacoinElementDiffs()[d])
+//@   ensures [sc-frame] forall id types.SiacoinOutputID :: { id in gSC } (forall d int :: { cru.SiacoinElementDiffs()[d] } 0 <= d && d < len(cru.SiacoinElementDiffs()) ==> cru.SiacoinElementDiffs()[d].SiacoinElement.ID != id) ==> ((id in gSC) <==> (id in old(gSC))) && gSC[id] == old(gSC)[id]
+//@   ensures [sc-frame-v] forall id types.SiacoinOutputID :: { gSC[id] } (forall d int :: { cru.SiacoinElementDiffs()[d] } 0 <= d && d < len(cru.SiacoinElementDiffs()) ==> cru.SiacoinElementDiffs()[d].SiacoinElement.ID != id) ==> ((id in gSC) <==> (id in old(gSC))) && gSC[id] == old(gSC)[id]
+//@   ensures [sf] forall d int :: { cru.SiafundElementDiffs()[d] } 0 <= d && d < len(cru.SiafundElementDiffs()) ==> sfReverted(gSF, old(gSF), cru.SiafundElementDiffs()[d])
+//@   ensures [sf-frame] forall id types.SiafundOutputID :: { id in gSF } (forall d int :: { cru.SiafundElementDiffs()[d] } 0 <= d && d < len(cru.SiafundElementDiffs()) ==> cru.SiafundElementDiffs()[d].SiafundElement.ID != id) ==> ((id in gSF) <==> (id in old(gSF))) && gSF[id] == old(gSF)[id]
+//@   ensures [sf-frame-v] forall id types.SiafundOutputID :: { gSF[id] } (forall d int :: { cru.SiafundElementDiffs()[d] } 0 <= d && d < len(cru.SiafundElementDiffs()) ==> cru.SiafundElementDiffs()[d].SiafundElement.ID != id) ==> ((id in gSF) <==> (id in old(gSF))) && gSF[id] == old(gSF)[id]
+//@   ensures [fc] forall d int :: { cru.FileContractElementDiffs()[d] } 0 <= d && d < len(cru.FileContractElementDiffs()) ==> fcReverted(gFC, old(gFC), cru.FileContractElementDiffs()[d])
+//@   ensures [fc-frame] forall id types.FileContractID :: { id in gFC } (forall d int :: { cru.FileContractElementDiffs()[d] } 0 <= d && d < len(cru.FileContractElementDiffs()) ==> cru.FileContractElementDiffs()[d].FileContractElement.ID != id) ==> ((id in gFC) <==> (id in old(gFC))) && gFC[id] == old(gFC)[id]
+//@   ensures [fc-frame-v] forall id types.FileContractID :: { gFC[id] } (forall d int :: { cru.FileContractElementDiffs()[d] } 0 <= d && d < len(cru.FileContractElementDiffs()) ==> cru.FileContractElementDiffs()[d].FileContractElement.ID != id) ==> ((id in gFC) <==> (id in old(gFC))) && gFC[id] == old(gFC)[id]
+//
+// Inverse (C02): given that the revert update carries the very diffs of the apply update (same slices), that a
+// spent / resolved / revised element is in its bucket as the diff carries it and that a created
+// element is not yet there (consensus facts about a valid block, assumed), reverting right after
+// applying leaves every bucket with the same keys and, up to Merkle proofs, the same elements.
+//@ lemma lemmaApplyRevertElements props C02
+//@   requires db != nil
+//@   requires [same-sc] cru.SiacoinElementDiffs() == cau.SiacoinElementDiffs()
+//@   requires [same-sc-r] forall d int :: { cru.SiacoinElementDiffs()[d] } cru.SiacoinElementDiffs()[d] == cau.SiacoinElementDiffs()[d]
+//@   requires [same-sc-a] forall d int :: { cau.SiacoinElementDiffs()[d] } cru.SiacoinElementDiffs()[d] == cau.SiacoinElementDiffs()[d]
+//@   requires [same-sf] cru.SiafundElementDiffs() == cau.SiafundElementDiffs()
+//@   requires [same-sf-r] forall d int :: { cru.SiafundElementDiffs()[d] } cru.SiafundElementDiffs()[d] == cau.SiafundElementDiffs()[d]
+//@   requires [same-sf-a] forall d int :: { cau.SiafundElementDiffs()[d] } cru.SiafundElementDiffs()[d] == cau.SiafundElementDiffs()[d]
+//@   requires [same-fc] cru.FileContractElementDiffs() == cau.FileContractElementDiffs()
+//@   requires [same-fc-r] forall d int :: { cru.FileContractElementDiffs()[d] } cru.FileContractElementDiffs()[d] == cau.FileContractElementDiffs()[d]
+//@   requires [same-fc-a] forall d int :: { cau.FileContractElementDiffs()[d] } cru.FileContractElementDiffs()[d] == cau.FileContractElementDiffs()[d]
+//@   requires [one-sc] forall a int, b int :: { cau.SiacoinElementDiffs()[a], cau.SiacoinElementDiffs()[b] } 0 <= a && a < b && b < len(cau.SiacoinElementDiffs()) ==> cau.SiacoinElementDiffs()[a].SiacoinElement.ID != cau.SiacoinElementDiffs()[b].SiacoinElement.ID
+//@   requires [one-sf] forall a int, b int :: { cau.SiafundElementDiffs()[a], cau.SiafundElementDiffs()[b] } 0 <= a && a < b && b < len(cau.SiafundElementDiffs()) ==> cau.SiafundElementDiffs()[a].SiafundElement.ID != cau.SiafundElementDiffs()[b].SiafundElement.ID
+//@   requires [one-fc] forall a int, b int :: { cau.FileContractElementDiffs()[a], cau.FileContractElementDiffs()[b] } 0 <= a && a < b && b < len(cau.FileContractElementDiffs()) ==> cau.FileContractElementDiffs()[a].FileContractElement.ID != cau.FileContractElementDiffs()[b].FileContractElement.ID
+//@   requires [valid-sc] forall d int :: { cau.SiacoinElementDiffs()[d] } 0 <= d && d < len(cau.SiacoinElementDiffs()) ==>
+//@        ite(cau.SiacoinElementDiffs()[d].Spent, cau.SiacoinElementDiffs()[d].Created || ((cau.SiacoinElementDiffs()[d].SiacoinElement.ID in gSC) && sameSC(gSC[cau.SiacoinElementDiffs()[d].SiacoinElement.ID], cau.SiacoinElementDiffs()[d].SiacoinElement)),
+//@            !(cau.SiacoinElementDiffs()[d].SiacoinElement.ID in gSC))
+//@   requires [valid-sf] forall d int :: { cau.SiafundElementDiffs()[d] } 0 <= d && d < len(cau.SiafundElementDiffs()) ==>
+//@        ite(cau.SiafundElementDiffs()[d].Spent, cau.SiafundElementDiffs()[d].Created || ((cau.SiafundElementDiffs()[d].SiafundElement.ID in gSF) && sameSF(gSF[cau.SiafundElementDiffs()[d].SiafundElement.ID], cau.SiafundElementDiffs()[d].SiafundElement)),
+//@            !(cau.SiafundElementDiffs()[d].SiafundElement.ID in gSF))
+//@   requires [valid-fc] forall d int :: { cau.FileContractElementDiffs()[d] } 0 <= d && d < len(cau.FileContractElementDiffs()) ==>
+//@        ite(cau.FileContractElementDiffs()[d].Resolved || cau.FileContractElementDiffs()[d].Revision != nil,
+//@            (cau.FileContractElementDiffs()[d].Created && cau.FileContractElementDiffs()[d].Resolved) || ((cau.FileContractElementDiffs()[d].FileContractElement.ID in gFC) && sameFC(gFC[cau.FileContractElementDiffs()[d].FileContractElement.ID], cau.FileContractElementDiffs()[d].FileContractElement)),
+//@            !(cau.FileContractElementDiffs()[d].FileContractElement.ID in gFC))
+//@   ensures [sc-touched] forall d int :: { cau.SiacoinElementDiffs()[d] } 0 <= d && d < len(cau.SiacoinElementDiffs()) ==>
+//@        ((cau.SiacoinElementDiffs()[d].SiacoinElement.ID in gSC) <==> (cau.SiacoinElementDiffs()[d].SiacoinElement.ID in old(gSC))) && ((cau.SiacoinElementDiffs()[d].SiacoinElement.ID in gSC) ==> sameSC(gSC[cau.SiacoinElementDiffs()[d].SiacoinElement.ID], old(gSC)[cau.SiacoinElementDiffs()[d].SiacoinElement.ID]))
+//@   ensures [sc-untouched] forall id types.SiacoinOutputID :: { id in gSC } (forall d int :: { cau.SiacoinElementDiffs()[d] } 0 <= d && d < len(cau.SiacoinElementDiffs()) ==> cau.SiacoinElementDiffs()[d].SiacoinElement.ID != id) ==> ((id in gSC) <==> (id in old(gSC))) && gSC[id] == old(gSC)[id]
+//@   ensures [sf-touched] forall d int :: { cau.SiafundElementDiffs()[d] } 0 <= d && d < len(cau.SiafundElementDiffs()) ==>
+//@        ((cau.SiafundElementDiffs()[d].SiafundElement.ID in gSF) <==> (cau.SiafundElementDiffs()[d].SiafundElement.ID in old(gSF))) && ((cau.SiafundElementDiffs()[d].SiafundElement.ID in gSF) ==> sameSF(gSF[cau.SiafundElementDiffs()[d].SiafundElement.ID], old(gSF)[cau.SiafundElementDiffs()[d].SiafundElement.ID]))
+//@   ensures [sf-untouched] forall id types.SiafundOutputID :: { id in gSF } (forall d int :: { cau.SiafundElementDiffs()[d] } 0 <= d && d < len(cau.SiafundElementDiffs()) ==> cau.SiafundElementDiffs()[d].SiafundElement.ID != id) ==> ((id in gSF) <==> (id in old(gSF))) && gSF[id] == old(gSF)[id]
+//@   ensures [fc-touched] forall d int :: { cau.FileContractElementDiffs()[d] } 0 <= d && d < len(cau.FileContractElementDiffs()) ==>
+//@        ((cau.FileContractElementDiffs()[d].FileContractElement.ID in gFC) <==> (cau.FileContractElementDiffs()[d].FileContractElement.ID in old(gFC))) && ((cau.FileContractElementDiffs()[d].FileContractElement.ID in gFC) ==> sameFC(gFC[cau.FileContractElementDiffs()[d].FileContractElement.ID], old(gFC)[cau.FileContractElementDiffs()[d].FileContractElement.ID]))
+//@   ensures [fc-untouched] forall id types.FileContractID :: { id in gFC } (forall d int :: { cau.FileContractElementDiffs()[d] } 0 <= d && d < len(cau.FileContractElementDiffs()) ==> cau.FileContractElementDiffs()[d].FileContractElement.ID != id) ==> ((id in gFC) <==> (id in old(gFC))) && gFC[id] == old(gFC)[id]
